@@ -280,6 +280,38 @@ func C17(c *fw.Ctx) {
 			}
 		}
 	}
+	// rows and columns in one run: every math built-in over all the numeric arguments in a single program,
+	// and for ঘাত every row (one base, all exponents) and every column (one exponent, all bases), in both
+	// orders: each result must be what the call gives in a program of its own
+	{
+		pre := func() []*model.N { return nil }
+		for _, name := range []string{model.BiAbs, model.BiSqrt, model.BiRound, model.BiSin, model.BiCos, model.BiTan} {
+			if !c.Mine() {
+				continue
+			}
+			var exprs []func() *model.N
+			for _, v := range vals {
+				name, v := name, v
+				exprs = append(exprs, func() *model.N { return model.CallN(name, lit(v)) })
+			}
+			batchVsSingle(c, "row|"+name, pre, exprs, "")
+		}
+		for _, two := range []string{model.BiPow, model.BiMin, model.BiMax} {
+			for _, a := range powVals {
+				if !c.Mine() {
+					continue
+				}
+				var row, col []func() *model.N
+				for _, b := range powVals {
+					two, a, b := two, a, b
+					row = append(row, func() *model.N { return model.CallN(two, lit(a), lit(b)) })
+					col = append(col, func() *model.N { return model.CallN(two, lit(b), lit(a)) })
+				}
+				batchVsSingle(c, "row|"+two, pre, row, "")
+				batchVsSingle(c, "column|"+two, pre, col, "")
+			}
+		}
+	}
 	// ঘাত(a, b) must be the very double a ** b is: bases x whole and fractional exponents
 	bases := []float64{10, 2.5, 0.1, 3, 1.5, 7, 0.3, 2, 0.5, 1e10, 1e-10, 123456.789, -10, -2.5, -0.1, 1.0000000001, 0.9999999999, 1e154, 1e-154, 17, 1.1}
 	var exps []float64
